@@ -143,7 +143,8 @@ class MolGraph:
         o_colors = {a: int(c) for a,c in zip(other.atoms, o_color_array)}
         s_colors = {a: int(c) for a,c in zip(self.atoms, s_color_array)}
 
-        return any(
+        # an empty mapping (two empty graphs) is a valid isomorphism
+        return next(
                 vf2pp_all_isomorphisms(
                     self,
                     other,
@@ -151,8 +152,9 @@ class MolGraph:
                     stereo=False,
                     stereo_change=False,
                     subgraph=False,
-                )
-            )
+                ),
+                None,
+            ) is not None
 
 
     def has_atom(self, atom: int) -> bool:
